@@ -19,6 +19,7 @@ import os
 import re
 import subprocess
 import threading
+import time
 
 from .. import common, vmd
 
@@ -200,6 +201,43 @@ def run(tier):
             for i in range(k):
                 if results[i] != solo_obs[batch[i]]:
                     mism.append((batch[i], k, results[i]))
+        # backlog bursts: K connections are ESTABLISHED before any request is sent, so the accept loop takes them back to
+        # back (the window between accept and the session thread reading its arguments is hit on every iteration);
+        # every session must still get its own program's reply
+        burst_names = [n for n in names if n.startswith("s_")][:8]
+        for dmn, label in ((dt, "tsan"),):
+            for r in range(4 if tier == "quick" else 12):
+                K = 32
+                batch = [burst_names[(i + r) % len(burst_names)] for i in range(K)]
+                socks = []
+                try:
+                    for i in range(K):
+                        for attempt in range(200):      # a full listen backlog answers EAGAIN: an ordinary client retries
+                            try:
+                                socks.append(dmn.connect(20.0))
+                                break
+                            except BlockingIOError:
+                                time.sleep(0.01)
+                        else:
+                            raise OSError("listen backlog stayed full")
+                    for i in range(K):
+                        socks[i].sendall(vmd.frame(vmd.MSG["LOAD_EXEC"], open(mods[batch[i]], "rb").read()))
+                    for i in range(K):
+                        data, closed = vmd.recv_all(socks[i])
+                        o, e, c, wf = vmd.decode_frames(data.hex())
+                        want = solo_obs[batch[i]]
+                        rep.count("transitions", 1)
+                        if c is None or (c & 0xFF) != want[0] or o != want[1]:
+                            mism.append((batch[i], "backlog burst of %d on the %s daemon" % (K, label), (c, o[:80], e[:2])))
+                except OSError as ex:
+                    mism.append((batch[0], "backlog burst of %d on the %s daemon" % (K, label), "connection error: %s" % ex.__class__.__name__))
+                finally:
+                    for sk in socks:
+                        try:
+                            sk.close()
+                        except OSError:
+                            pass
+        rep.coverage["backlog_burst_sessions"] = 32 * (4 if tier == "quick" else 12)
         if not dt.alive():
             rep.violation("tsan-daemon-died", {"stderr.txt": dt.stderr_text()[-20000:]}, "tsan-built daemon died while serving concurrent clients")
     finally:
@@ -218,8 +256,10 @@ def run(tier):
                       "ThreadSanitizer in the daemon: %s between %s (%s)" % (kind, " and ".join(frames), loc.group(1) if loc else "?"),
                       "# build with clang -fsanitize=thread; start bin/nano_vmd --foreground; run several bin/nano_vm --daemon x.nvm concurrently")
     for name, k, got in mism[:5]:
-        rep.violation("free-running:" + name, {"observed.txt": "k=%d\n%r\nalone: %r\n" % (k, got, solo_obs[name])},
-                      "%s served together with %d concurrent clients by the real daemon: rc/stdout/stderr %r differ from the standalone run %r" % (name, k - 1, (got[0], got[1][:80], got[2][:80]), (solo_obs[name][0], solo_obs[name][1][:80])))
+        how = ("together with %d concurrent clients" % (k - 1)) if isinstance(k, int) else "in a " + k
+        shown = (got[0], got[1][:80], got[2][:80]) if isinstance(got, tuple) and len(got) == 3 and isinstance(got[1], bytes) else got
+        rep.violation("free-running:" + name, {"observed.txt": "%s\n%r\nalone: %r\n" % (how, got, solo_obs[name])},
+                      "%s served %s by the real daemon: rc/stdout/stderr %r differ from the standalone run %r" % (name, how, shown, (solo_obs[name][0], solo_obs[name][1][:80])))
     rep.coverage["tsan_reports"] = nrep
     rep.coverage["free_running_client_runs"] = sum(k * r for k, r in rounds)
     rep.assumptions += [
